@@ -175,8 +175,8 @@ def install():
     # exceptions escaping a thread's run(): record, do not print
     def _excepthook(a):
         s = core._SIM
-        if a.exc_type is core.SimAbort:
-            return
+        if a.exc_type is core.SimAbort or a.exc_type is SystemExit:
+            return  # the default hook ignores SystemExit silently, too
         if s is not None:
             import traceback
             me = cur()[1]
